@@ -186,6 +186,10 @@ func genLiveBase(r *rand.Rand) *LivePlan {
 func genC01(seed uint64, idx int) *Plan {
 	r := core.NewRand(seed, "plan")
 	p := genLiveBase(r)
+	if r.IntN(16) == 0 {
+		// a client that connects to an IP literal encrypts no server name at all
+		p.ServerName = []string{"10.1.2.3", "192.0.2.77", "2001:db8::7"}[r.IntN(3)]
+	}
 	if r.IntN(6) == 0 { // stale client config: same public name, a key the server does not hold
 		p.ClientKey = -1
 		p.Stale = KeySpec{ID: byte(r.IntN(256)), PublicName: p.Keys[0].PublicName, Suites: genSuites(r), KeySeed: int(r.Uint32())}
